@@ -142,7 +142,13 @@ func ruleC10NilRecv(c *Ctx) {
 			if !cc.IsInvoke() {
 				continue
 			}
+			// the helper's result: the call itself, or the first of its results when it also reports
+			// whether it had something to hand out
+			var recvVal ssa.Value = cc.Value
 			src, ok := cc.Value.(*ssa.Call)
+			if ex, isEx := cc.Value.(*ssa.Extract); isEx && ex.Index == 0 {
+				src, ok = ex.Tuple.(*ssa.Call)
+			}
 			if !ok {
 				continue
 			}
@@ -156,8 +162,15 @@ func ruleC10NilRecv(c *Ctx) {
 			}
 			n++
 			construct := FnName(fn) + ": " + cc.Method.Name() + " on result of " + cal.Name()
-			ok = fi.Holds(call.Block(), Fact{"nonnil", src, true}) || fi.HoldsWhere(call.Block(), func(f Fact) bool {
-				if f.Kind != "true" || f.Pol {
+			ok = fi.Holds(call.Block(), Fact{"nonnil", recvVal, true}) || fi.HoldsWhere(call.Block(), func(f Fact) bool {
+				if f.Kind != "true" {
+					return false
+				}
+				// the helper's own "found" flag, when it is false whenever the node is nil
+				if ex, isEx := f.V.(*ssa.Extract); isEx && f.Pol && ex.Index == 1 && ex.Tuple == ssa.Value(src) {
+					return flagMeansNonNil(p.SSAFunc(cal))
+				}
+				if f.Pol {
 					return false
 				}
 				hc, isCall := f.V.(*ssa.Call)
@@ -599,6 +612,11 @@ func ruleC10Assert(c *Ctx) {
 				}
 				if types.Identical(ta.AssertedType, ta.X.Type()) {
 					continue // the builder's nil check for a method value of an interface, not a source assertion
+				}
+				if xi, isXI := ta.X.Type().Underlying().(*types.Interface); isXI {
+					if ai, isAI := ta.AssertedType.Underlying().(*types.Interface); isAI && types.Implements(xi, ai) {
+						continue // towards an interface the static type already satisfies: cannot fail on the operand's type
+					}
 				}
 				nSites++
 				if fi == nil {
@@ -1056,6 +1074,16 @@ func ruleSymClosed(c *Ctx) {
 				}
 				continue
 			}
+			// built by a constructor: a function of the package, or an entry of a constant dispatch table
+			if tys, known := possibleDynTypes(v, 0); known && len(tys) > 0 {
+				for _, t := range tys {
+					if !types.Implements(t, symIface) {
+						ok = false
+						why = "returns " + t.String() + " which is not a SymbolNode"
+					}
+				}
+				continue
+			}
 			ok = false
 			why = "returns a value of unknown dynamic type"
 		}
@@ -1179,29 +1207,59 @@ func nullableOrigin(v ssa.Value, depth int) *ssa.Call {
 
 func ruleC10LexErr(c *Ctx) {
 	p := c.P
-	fn := p.SSAFunc(p.Func("zitiql", "parse"))
+	// the function that runs the parser: the one that calls Start_ (whatever it is called and whoever
+	// creates the listener)
+	var fn *ssa.Function
+	var start ssa.CallInstruction
+	for _, f := range c.prodFuncs("zitiql") {
+		if p.isGenerated(f.Pos()) {
+			continue
+		}
+		for _, call := range callsIn(f) {
+			if cal, _ := calleeOf(call.Common()); cal != nil && cal.Name() == "Start_" {
+				fn, start = f, call
+			}
+		}
+	}
+	if fn == nil {
+		panic(anchorLost{"zitiql: the function that calls Start_"})
+	}
 	name := FnName(fn)
 	c.Analysed(name)
 	lexerT := p.Named("zitiql", "ZitiQlLexer")
 	parserT := p.Named("zitiql", "ZitiQlParser")
-	// the error listener parameter: the one whose type is antlr.ErrorListener
-	var el *ssa.Parameter
-	for _, prm := range fn.Params {
-		if n := namedOf(prm.Type()); n != nil && n.Obj().Name() == "ErrorListener" {
-			el = prm
-		}
-	}
-	if el == nil {
-		panic(anchorLost{"zitiql.parse: ErrorListener parameter"})
-	}
-	var start ssa.CallInstruction
+	recorderT := p.Named("zitiql", "ErrorListener")
+	// the recording listener: a parameter of antlr's ErrorListener interface type (the caller's), or the
+	// package's own recording listener created here — the one value of that kind handed to AddErrorListener
+	var el ssa.Value
+	nEl := 0
 	for _, call := range callsIn(fn) {
-		if cal, _ := calleeOf(call.Common()); cal != nil && cal.Name() == "Start_" {
-			start = call
+		cc := call.Common()
+		cal, _ := calleeOf(cc)
+		if cal == nil || cal.Name() != "AddErrorListener" {
+			continue
+		}
+		arg := cc.Args[len(cc.Args)-1]
+		if mi, ok := arg.(*ssa.MakeInterface); ok {
+			arg = mi.X
+		}
+		isRecorder := false
+		if prm, isPrm := arg.(*ssa.Parameter); isPrm {
+			if n := namedOf(prm.Type()); n != nil && n.Obj().Name() == "ErrorListener" {
+				isRecorder = true
+			}
+		}
+		if pt, isP := arg.Type().(*types.Pointer); isP && namedOf(pt.Elem()) == recorderT {
+			isRecorder = true
+		}
+		if isRecorder && arg != el {
+			el = arg
+			nEl++
 		}
 	}
-	if start == nil {
-		panic(anchorLost{"zitiql.parse: call of Start_"})
+	if nEl != 1 {
+		c.Check(false, "C10.LEXERR", name+": recording listener", p.Pos(start.Pos()), "one recording error listener is attached", fmt.Sprintf("%d recording error listeners are attached before Start_(): lexer and parser errors must reach the one listener whose errors are returned", nEl))
+		return
 	}
 	rootNamed := func(v ssa.Value) *types.Named {
 		for i := 0; i < 10; i++ {
@@ -1243,7 +1301,7 @@ func ruleC10LexErr(c *Ctx) {
 			if mi, ok := arg.(*ssa.MakeInterface); ok {
 				arg = mi.X
 			}
-			return arg == ssa.Value(el) && rootNamed(recv) == want.t
+			return arg == el && rootNamed(recv) == want.t
 		}
 		ri := reachWithout(fn, isAdd)
 		c.Check(!ri.Reaches(start), "C10.LEXERR", name+": "+want.what+" reports to the caller's listener", p.Pos(start.Pos()),
@@ -1903,4 +1961,151 @@ func ruleC10LateCursor(c *Ctx) {
 	}
 	c.CallSites(n)
 	c.Floor("C10.LATECURSOR", 1)
+}
+
+// flagMeansNonNil: fn returns (value, flag) and on every return the flag is false when the value is nil: a
+// literal (nil, false), or the two results of one comma-ok type assertion.
+func flagMeansNonNil(fn *ssa.Function) bool {
+	if fn == nil || fn.Blocks == nil || fn.Signature.Results().Len() != 2 {
+		return false
+	}
+	var pairOK func(v, flag ssa.Value, depth int) bool
+	pairOK = func(v, flag ssa.Value, depth int) bool {
+		if depth > 3 {
+			return false
+		}
+		if isNilConst(v) {
+			k, isK := flag.(*ssa.Const)
+			return isK && k.Value != nil && k.Value.Kind() == constant.Bool && !constant.BoolVal(k.Value)
+		}
+		e0, ok0 := v.(*ssa.Extract)
+		e1, ok1 := flag.(*ssa.Extract)
+		if ok0 && ok1 && e0.Tuple == e1.Tuple && e0.Index == 0 && e1.Index == 1 {
+			ta, isTA := e0.Tuple.(*ssa.TypeAssert)
+			return isTA && ta.CommaOk
+		}
+		p0, isP0 := v.(*ssa.Phi)
+		p1, isP1 := flag.(*ssa.Phi)
+		if isP0 && isP1 && p0.Block() == p1.Block() {
+			for i := range p0.Edges {
+				if !pairOK(p0.Edges[i], p1.Edges[i], depth+1) {
+					return false
+				}
+			}
+			return true
+		}
+		return false
+	}
+	for _, r := range returnsOf(fn) {
+		if !pairOK(r.Results[0], r.Results[1], 0) {
+			return false
+		}
+	}
+	return true
+}
+
+// possibleDynTypes: the dynamic types an interface value can have, when it is built by boxing a concrete
+// value, by a function of the module whose every return does so, or by an entry of a package-level dispatch
+// table that is only written by its initialiser.  nil results are left out.
+func possibleDynTypes(v ssa.Value, depth int) ([]types.Type, bool) {
+	if depth > 4 {
+		return nil, false
+	}
+	var out []types.Type
+	add := func(ts []types.Type) {
+		for _, t := range ts {
+			dup := false
+			for _, o := range out {
+				if types.Identical(o, t) {
+					dup = true
+				}
+			}
+			if !dup {
+				out = append(out, t)
+			}
+		}
+	}
+	ofFunc := func(f *ssa.Function) bool {
+		if f == nil || f.Blocks == nil || f.Signature.Results().Len() < 1 {
+			return false
+		}
+		for _, r := range returnsOf(f) {
+			if isNilConst(r.Results[0]) {
+				continue
+			}
+			ts, ok := possibleDynTypes(r.Results[0], depth+1)
+			if !ok {
+				return false
+			}
+			add(ts)
+		}
+		return true
+	}
+	switch x := v.(type) {
+	case *ssa.MakeInterface:
+		return []types.Type{x.X.Type()}, true
+	case *ssa.ChangeInterface:
+		return possibleDynTypes(x.X, depth+1)
+	case *ssa.Phi:
+		for _, e := range x.Edges {
+			if isNilConst(e) {
+				continue
+			}
+			ts, ok := possibleDynTypes(e, depth+1)
+			if !ok {
+				return nil, false
+			}
+			add(ts)
+		}
+		return out, true
+	case *ssa.Extract:
+		if call, isCall := x.Tuple.(*ssa.Call); isCall && x.Index == 0 {
+			return possibleDynTypes(call, depth+1)
+		}
+	case *ssa.Call:
+		if sc := x.Call.StaticCallee(); sc != nil {
+			if sc.Pkg == nil || !strings.HasPrefix(sc.Pkg.Pkg.Path(), modPath) || !ofFunc(sc) {
+				return nil, false
+			}
+			return out, true
+		}
+		if x.Call.IsInvoke() {
+			return nil, false
+		}
+		// a function taken from a constant dispatch table: any of its entries
+		fv := x.Call.Value
+		if ex, isEx := fv.(*ssa.Extract); isEx {
+			fv = ex.Tuple
+		}
+		lk, isLk := fv.(*ssa.Lookup)
+		if !isLk {
+			return nil, false
+		}
+		ld, isLd := lk.X.(*ssa.UnOp)
+		if !isLd {
+			return nil, false
+		}
+		g, isG := ld.X.(*ssa.Global)
+		if !isG {
+			return nil, false
+		}
+		entries, okT := constTable(g)
+		if !okT {
+			return nil, false
+		}
+		for _, e := range entries {
+			var f *ssa.Function
+			switch ev := e.val.(type) {
+			case *ssa.Function:
+				f = ev
+			case *ssa.MakeClosure:
+				f, _ = ev.Fn.(*ssa.Function)
+			}
+			if !ofFunc(f) {
+				return nil, false
+			}
+		}
+		return out, true
+	}
+	return nil, false
 }
